@@ -75,6 +75,14 @@ def extract_facts():
                       "-json", facts_json], timeout=120)
     if rc != 0:
         return False, "fact extraction failed (source does not parse?):\n" + out, {}
+    # the translator: selected pure functions of the Go source -> lean/Gotlcp/Generated/Src.lean
+    exe2 = os.path.join(BUILD, "go2lean")
+    rc, out, _ = run(["go", "build", "-o", exe2, "./cmd/go2lean"], cwd=HARNESS, env=GOENV, timeout=600)
+    if rc != 0:
+        return False, "building the Go->Lean translator failed:\n" + out, {}
+    rc, out, _ = run([exe2, "-repo", REPO, "-out", os.path.join(LEAN, "Gotlcp/Generated/Src.lean")], timeout=120)
+    if rc != 0:
+        return False, "Go->Lean translation failed (source does not parse?):\n" + out, {}
     try:
         return True, "", json.load(open(facts_json))
     except Exception as e:
